@@ -44,3 +44,20 @@ package cli
 //@ props C17
 //@ modifies nothing
 //@ ensures result != nil && fresh(result)
+
+// The whole run: the engine is built from the decoded configuration, runs under a context that the termination handler can
+// cancel, and the process waits for the outcome (an error or a signal) before it returns.
+//@ func ReadConfigAndRunEngine
+//@ props C05 C17
+//@ may_panic true
+//@ at return newLogger assume [a-logger-is-built-or-the-process-ends] result_of(newLogger, 0) != nil
+//@ at call engine.New assert [engine-of-the-decoded-configuration] arg(conf) == result_of(readConfig, 0).Engine && arg(log) == result_of(newLogger, 0)
+//@ at call newLogger assert [configured-log] arg(conf) == result_of(readConfig, 0).Log
+//@ at call startMonitoring assert [configured-monitoring] arg(conf) == result_of(readConfig, 0).Monitoring
+//@ at call awaitPandoraTermination assert [waits-for-that-engine-and-can-cancel-that-context] arg(pandora) == result_of(engine.New, 0) && arg(errs) == errs
+//@ ensures [the-outcome-is-awaited] calls(awaitPandoraTermination) == 1
+
+//@ func newLogger
+//@ props C17
+//@ may_panic true
+//@ ensures result == result_of(zapConf.Build, 0)
